@@ -565,7 +565,9 @@ fn gen_case(g: &mut Xo, for_dist: bool) -> (Api, Shape, Vec<u32>) {
     };
     let mut leaves = Vec::new();
     let style = g.below(4);
-    let shape = if api == Api::Tree { gen_shape(g, &mut leaves, 0, n, style) } else { left_chain(n) };
+    // (chains and dynamic lists have no shape of their own: the placeholder keeps the recorded scenario flat; a
+    // left-nested chain of 500 members would be a 500-level structure)
+    let shape = if api == Api::Tree { gen_shape(g, &mut leaves, 0, n, style) } else { Shape::Leaf(0) };
     (api, shape, weights)
 }
 
@@ -610,9 +612,9 @@ fn enum_cell(mut idx: u64) -> Sc {
     let (api, shape) = match api_k {
         0 => (Api::Tree, left_chain(n)),
         1 => (Api::Tree, right_chain(n)),
-        2 if n >= 2 => (Api::Chain, left_chain(n)),
+        2 if n >= 2 => (Api::Chain, Shape::Leaf(0)),
         2 => (Api::Tree, left_chain(n)),
-        _ => (Api::Dyn, left_chain(n)),
+        _ => (Api::Dyn, Shape::Leaf(0)),
     };
     let rng = match stream {
         0 => RngSpec::seeded(1),
@@ -701,7 +703,7 @@ impl Check for C13 {
             // dense sweep (by run index) of the number of members 1..=96 of a dynamic list
             let n = 1 + ((run / 6) % 96) as usize;
             api = Api::Dyn;
-            shape = left_chain(n);
+            shape = Shape::Leaf(0);
             weights = (0..n).map(|_| if g.chance(1, 4) { 0 } else { g.range(1, 9) as u32 }).collect();
         }
         let n = weights.len();
